@@ -33,6 +33,7 @@ class Recorder:
         self.cur = {}
         self.gem = None
         self.gem_eval = None
+        self.gems = []
 
     def install(self):
         est, rec = self.est, self
@@ -65,19 +66,21 @@ class Recorder:
         orig_gg = est.get_gemini
 
         def rec_get_gemini():
-            g = orig_gg()
-            if rec.gem is None:
-                rec.gem, rec.gem_eval = g, g.evaluate
+            g = orig_gg()                      # a string GEMINI yields a fresh (equivalent) instance per call: wrap each
+            if "evaluate" not in vars(g):
+                orig_eval = g.evaluate
+                rec.gem, rec.gem_eval = g, orig_eval
+                rec.gems.append(g)
 
                 def rec_eval(y_pred, affinity, return_grad=False):
                     if return_grad:
                         rec.cur["affinity"] = None if affinity is None else np.array(affinity, copy=True)
-                    return rec.gem_eval(y_pred, affinity, return_grad)
+                    return orig_eval(y_pred, affinity, return_grad)
                 g.evaluate = rec_eval
             return g
         est.get_gemini = rec_get_gemini
 
-    def fit(self, X):
+    def fit(self, X, path_kw=None):
         orig_up = BaseOptimizer.update_params
         rec = self
 
@@ -90,14 +93,14 @@ class Recorder:
             return orig_up(opt, params, grads)
         BaseOptimizer.update_params = hook
         try:
-            self.est.fit(X)
+            if path_kw is None:
+                self.est.fit(X)
+            else:
+                self.est.path(X, **path_kw)
         finally:
             BaseOptimizer.update_params = orig_up
-        if self.gem is not None:
-            try:
-                del self.gem.evaluate
-            except AttributeError:
-                pass
+            for g in self.gems:
+                vars(g).pop("evaluate", None)
 
 
 # ------------------------------------------------------------------ the model's step (L2)
@@ -202,10 +205,11 @@ def fd_check(chk, key, est, rec, st, fam, replay, max_entries):
         sel = chk.rng("fd-entries", replay.get("case_id", 0), st.get("step", 0)).choice(len(entries), size=max_entries, replace=False)
         entries = [entries[s] for s in sorted(sel)]
     worst = None
+    f0 = objective(est, rec, st, fam)
     for a, ix in entries:
         p = live[a]
         base = p[ix]
-        cds = []
+        cds, sds = [], []
         kink = False
         h0 = 1e-3 * (1.0 + abs(base))
         for hh in (h0, h0 / 2, h0 / 4):
@@ -217,6 +221,14 @@ def fd_check(chk, key, est, rec, st, fam, replay, max_entries):
                 vals.append(objective(est, rec, st, fam))
             p[ix] = base
             cds.append((vals[0] - vals[1]) / (2 * hh))
+            sds.append((vals[0] + vals[1] - 2 * f0) / hh)      # forward minus backward one-sided slope
+        # rounding noise of the objective itself: re-evaluate next to the two innermost points (relative shift 1e-8 of the step)
+        noise = 0.0
+        for sgn, v in zip((1, -1), vals):
+            p[ix] = base + sgn * hh * (1 + 1e-8)
+            noise = max(noise, abs(objective(est, rec, st, fam) - v))
+        p[ix] = base
+        noise = noise / hh
         if kink:
             res["kink"] += 1
             continue
@@ -226,12 +238,17 @@ def fd_check(chk, key, est, rec, st, fam, replay, max_entries):
         ana = -float(st["grads"][a][ix])
         scale = max(abs(ana), abs(r1), abs(r2), 0.05 * gmax)
         tol = RTOL_FD * scale + 1e-10
-        if not all(np.isfinite(cds)) or abs(r1 - r2) > tol / 2 or abs(cds[0] - cds[1]) > 1e-2 * scale:
+        if not all(np.isfinite(cds)) or abs(r1 - r2) > tol / 2 or abs(cds[0] - cds[1]) > 1e-2 * scale or 4 * noise > tol:
             res["unstable"] += 1      # estimates disagree: non-smooth neighbourhood (TV, Wasserstein LP) or an ill-conditioned score
+            continue
+        # smooth objective: the one-sided slopes differ by h f'' (halves with h); a kink next to the point (MMD / sqrt at a
+        # zero distance, |.| of TV, LP basis change) leaves a slope jump that does not shrink with h
+        if any(abs(sds[j + 1]) > tol and abs(sds[j + 1]) > abs(sds[j]) / 1.5 for j in (0, 1)):
+            res["nonsmooth"] = res.get("nonsmooth", 0) + 1
             continue
         res["checked"] += 1
         err = abs(r1 - ana)
-        if err > tol:
+        if err > tol + 10 * abs(r1 - r2):         # the spread of the two estimates is the oracle's own error bar
             res["bad"] += 1
             if worst is None or err > worst[0]:
                 worst = (err, a, ix, ana, r1)
@@ -243,6 +260,51 @@ def fd_check(chk, key, est, rec, st, fam, replay, max_entries):
                       f"-grad={ana:.10g} finite-difference={fd:.10g} ({res['bad']} of {res['checked']} entries off)",
                  dict(replay, step=st.get("step"), param=a, entry=list(ix)), layer="L3")
     return res
+
+
+
+# ------------------------------------------------------------------ hypotheses of the theorems, checked on the implementation (L3)
+def digit(F, B, f, l):
+    return (l // B ** (F - 1 - f)) % B
+
+
+def check_hypotheses(chk, key, est, fam, st, replay):
+    """The adjoint theorems assume: Douglas's retained leaf matrix is the Kronecker product of the retained binnings
+    (row-major leaf index), the retained orders are permutations whose argsort is their inverse, temperature != 0;
+    KernelRIM's training kernel is symmetric.  MLP: count states with a pre-activation exactly on the kink."""
+    if fam == "Douglas":
+        live = est._get_weights()
+        saved = [np.array(p, copy=True) for p in live]
+        for p, q in zip(live, st["params"]):
+            np.copyto(p, q)
+        type(est)._infer(est, st["X"], True)
+        leaf, bins, orders = est._leaf, est._all_binnings, est._all_orders
+        for p, q in zip(live, saved):
+            np.copyto(p, q)
+        F, B = len(bins), bins[0].shape[1]
+        L = leaf.shape[1]
+        prod = np.ones_like(leaf)
+        for f in range(F):
+            prod *= bins[f][:, [digit(F, B, f, l) for l in range(L)]]
+        ok = L == B ** F and np.allclose(prod, leaf, rtol=1e-12, atol=1e-300)
+        for o in orders:
+            o = list(map(int, o))
+            inv = [o.index(p) for p in range(len(o))]
+            ok = ok and sorted(o) == list(range(len(o))) and list(map(int, np.argsort(o))) == inv
+        ok = ok and est.temperature != 0
+        if not ok:
+            chk.fail(key + ":hypothesis", "Douglas retained state violates the structure the adjoint theorem assumes "
+                                          "(leaf = Kronecker product of the binnings / orders are permutations / temperature != 0)", replay, layer="L3")
+        chk.dist["hyp_douglas_structure_checked"] += 1
+    if fam == "KernelRIM":
+        Kt = est.training_kernel_
+        if not np.allclose(Kt, Kt.T, rtol=1e-12, atol=1e-12):
+            chk.fail(key + ":hypothesis", "KernelRIM training kernel is not symmetric: 2*reg*K@W is then not the gradient of reg*tr(W^T K W)", replay, layer="L3")
+        chk.dist["hyp_kernel_symmetric_checked"] += 1
+    if fam in ("MLPModel", "SparseMLPModel"):
+        A = st["X"] @ st["params"][0] + st["params"][-2]
+        chk.dist["hyp_relu_on_kink_states"] += int((A == 0).any())
+        chk.dist["hyp_relu_off_kink_states"] += int(not (A == 0).any())
 
 
 # ------------------------------------------------------------------ case generation
@@ -261,8 +323,10 @@ def make_case(chk, i, rng):
     if fam in ("RIM", "KernelRIM"):
         gem = "mi"
     else:
-        pool = GEMINIS if (i * 7 + j) % 6 == 0 else NON_WS           # Wasserstein sparingly (LP per cluster pair)
-        gem = pool[int(rng.integers(0, len(pool)))]
+        if i % 11 == 5:                                              # Wasserstein sparingly (one LP per cluster / cluster pair)
+            gem = ["wasserstein_ova", "wasserstein_ovo"][int(rng.integers(0, 2))]
+        else:
+            gem = NON_WS[int(rng.integers(0, len(NON_WS)))]
     kw = dict(n_clusters=K, gemini=gem, max_iter=3, learning_rate=float(rng.choice([0.02, 0.05, 0.1])), solver=solver,
               batch_size=bs, random_state=int(rng.integers(0, 10 ** 6)))
     if fam in ("MLPModel", "SparseMLPModel"):
@@ -291,13 +355,13 @@ def make_case(chk, i, rng):
     return fam, kw, X, ml, cl, factor, bsc, decorated
 
 
-def stream_fit(chk, i, rng):
-    fam, kw, X, ml, cl, factor, bsc, decorated = make_case(chk, i, rng)
+def run_case(chk, i, stream, case, path_kw=None):
+    fam, kw, X, ml, cl, factor, bsc, decorated = case
     est = impl.make(fam, **kw)
     rec = Recorder(est, ml, cl, factor)
     rec.install()
     replay = {"family": fam, "kwargs": kw, "n": len(X), "d": X.shape[1], "must_link": ml, "cannot_link": cl, "factor": factor, "case_id": i}
-    rec.fit(X)
+    rec.fit(X, path_kw)
     n = len(X)
     steps = rec.steps
     for s, st in enumerate(steps):
@@ -305,22 +369,23 @@ def stream_fit(chk, i, rng):
     bs_eff = n if (kw["batch_size"] is None or fam == "CategoricalModel") else kw["batch_size"]
     exp_steps = kw["max_iter"] * (-(-n // bs_eff))
     key = f"{fam}:{'mlcl' if decorated else 'plain'}"
-    if len(steps) != exp_steps or any(k not in st for st in steps for k in ("X", "y_pred", "g_raw", "g_in", "params", "grads")):
+    if (path_kw is None and len(steps) != exp_steps) or len(steps) == 0 or any(k not in st for st in steps for k in ("X", "y_pred", "g_raw", "g_in", "params", "grads")):
         chk.fail(key + ":trace", f"recorded {len(steps)} optimiser steps, expected {exp_steps} (or an incomplete step record)", replay)
         chk.count(None)
         return
     chk.traces += 1
     moved = any(not np.array_equal(a, b) for a, b in zip(steps[0]["params"], steps[-1]["params"]))
-    # ---- L2 on every step (capped), L3 on a few steps spread over the epochs
+    # ---- L2 on every step (capped), L3 on a few steps spread over the epochs (never the very first: parameters must have moved)
     cap = 14 if chk.tier == "quick" else 60
     l2_steps = list(range(len(steps))) if len(steps) <= cap else sorted(set(np.linspace(0, len(steps) - 1, cap).astype(int).tolist()))
     nfd = 2 if chk.tier == "quick" else 5
-    fd_steps = sorted(set(np.linspace(len(steps) // 3, len(steps) - 1, nfd).astype(int).tolist()))
+    fd_steps = sorted(set(np.linspace(max(1, len(steps) // 3), len(steps) - 1, nfd).astype(int).tolist()))
     nonfinite = 0
     in_batch_pairs = 0
     for s in l2_steps:
         st = steps[s]
-        if not all(np.isfinite(g).all() for g in st["grads"]) or not all(np.isfinite(p).all() for p in st["params"]):
+        if not all(np.isfinite(g).all() for g in st["grads"]) or not all(np.isfinite(p).all() for p in st["params"]) \
+                or not np.isfinite(st["g_raw"]).all():
             nonfinite += 1
             continue
         Y, Gd, dirs = model_step(chk, fam, est, st, rec)
@@ -335,16 +400,17 @@ def stream_fit(chk, i, rng):
                                                f"(max abs diff {np.abs(gm - gi.reshape(gm.shape)).max():.3g})", rp)
         if st["idx"] is not None:
             in_batch_pairs += sum(1 for (a, b) in ml + cl if a in st["idx"] and b in st["idx"])
-    fdres = {"checked": 0, "kink": 0, "unstable": 0, "bad": 0, "clipped": 0}
+    fdres = {"checked": 0, "kink": 0, "unstable": 0, "nonsmooth": 0, "bad": 0, "clipped": 0}
     max_entries = 40 if chk.tier == "quick" else 200
     for s in fd_steps:
         st = steps[s]
         if not all(np.isfinite(g).all() for g in st["grads"]) or not all(np.isfinite(p).all() for p in st["params"]):
             continue
+        check_hypotheses(chk, key, est, fam, st, dict(replay, step=s))
         r = fd_check(chk, key + ":fd", est, rec, st, fam, replay, max_entries)
         for k2, v in r.items():
             fdres[k2] = fdres.get(k2, 0) + v
-    chk.dist["family:" + fam] += 1
+    chk.dist[stream + ":family:" + fam] += 1
     chk.dist["gemini:" + str(kw["gemini"])] += 1
     chk.dist["solver:" + kw["solver"]] += 1
     chk.dist["batch:" + bsc] += 1
@@ -356,13 +422,85 @@ def stream_fit(chk, i, rng):
         chk.dist["fd_" + k2] += v
     if decorated:
         chk.dist["decorated_steps_with_pair_in_batch"] += in_batch_pairs
-    nontrivial = moved and fdres["checked"] > 0 and (not decorated or in_batch_pairs > 0 or bsc in ("1",))
-    chk.count((fam, kw["gemini"], kw["solver"], bsc, decorated) if nontrivial else None)
-    chk.sample({"stream": "fit", "family": fam, "gemini": kw["gemini"], "solver": kw["solver"], "batch_size": kw["batch_size"], "n": n,
+    nontrivial = moved and fdres["checked"] > 0 and (not decorated or in_batch_pairs > 0 or bsc in ("1", "edge", "path"))
+    chk.count((stream, fam, kw["gemini"], kw["solver"], bsc, decorated) if nontrivial else None)
+    chk.sample({"stream": stream, "family": fam, "gemini": kw["gemini"], "solver": kw["solver"], "batch_size": kw["batch_size"], "n": n,
                 "steps": len(steps), "decorated": decorated, "fd": fdres})
 
 
-STREAMS = {"fit": (stream_fit, 160, 1600)}
+def stream_fit(chk, i, rng):
+    run_case(chk, i, "fit", make_case(chk, i, rng))
+
+
+def stream_path(chk, i, rng):
+    """The second training loop of the sparse models: path() (initial fit with alpha = 0, then SGD steps with growing alpha)."""
+    fam = ["SparseLinearModel", "SparseMLPModel"][i % 2]
+    n = int(rng.integers(6, 15))
+    d = int(rng.integers(3, 5))
+    gem = NON_WS[int(rng.integers(0, len(NON_WS)))]
+    bs = [None, 3, n // 2][int(rng.integers(0, 3))]
+    kw = dict(n_clusters=2, gemini=gem, max_iter=2, learning_rate=0.05, solver=["sgd", "adam"][(i // 2) % 2], batch_size=bs,
+              alpha=float(rng.choice([0.05, 0.3])), random_state=int(rng.integers(0, 10 ** 6)), dynamic=bool((i // 4) % 2))
+    if fam == "SparseMLPModel":
+        kw["n_hidden_dim"] = int(rng.integers(1, 4))
+    X = impl.blobs(rng, n, d, k=2)
+    ml, cl, factor = [], [], 1.0
+    if (i // 2) % 3 == 2:
+        a, b, c = (int(v) for v in rng.permutation(n)[:3])
+        ml, cl, factor = [(a, b)], [(b, c)], 1.5
+    run_case(chk, i, "path", (fam, kw, X, ml, cl, factor, "path", bool(ml or cl)),
+             path_kw=dict(alpha_multiplier=3.0, min_features=d - 1, max_patience=1))
+
+
+def stream_edge(chk, i, rng):
+    """Edge shapes and odd-but-accepted constraint lists: a single cluster, duplicated rows with a constant feature,
+    saturated predictions (clip mask active), pairs that never meet in a batch / repeated / reversed pairs."""
+    fam = FAMILIES[(i // 4) % len(FAMILIES)]
+    variant = i % 4
+    solver = ["sgd", "adam"][(i // 32) % 2]
+    n = int(rng.integers(4, 11))
+    d = int(rng.integers(1, 4))
+    K = 1 if variant == 0 else 2
+    gem = "mi" if fam in ("RIM", "KernelRIM") else NON_WS[int(rng.integers(0, len(NON_WS)))]
+    bs = [None, 2, 3, 1][int(rng.integers(0, 4))]
+    kw = dict(n_clusters=K, gemini=gem, max_iter=3, learning_rate=0.05, solver=solver, batch_size=bs, random_state=int(rng.integers(0, 10 ** 6)))
+    if fam in ("MLPModel", "SparseMLPModel"):
+        kw["n_hidden_dim"] = int(rng.integers(1, 4))
+    if fam in ("RIM", "KernelRIM"):
+        kw["reg"] = 0.2
+    if fam == "KernelRIM":
+        kw["base_kernel"] = [sym_callable_kernel, "linear"][int(rng.integers(0, 2))]
+    if fam in ("SparseLinearModel", "SparseMLPModel"):
+        kw["alpha"] = 0.05
+    if fam == "Douglas":
+        kw["n_cuts"] = int(rng.integers(1, 3))
+        kw["temperature"] = 0.5
+        if d >= 2 and rng.random() < 0.5:
+            kw["feature_mask"] = np.array([True] + [bool(rng.integers(0, 2)) for _ in range(d - 1)])
+    X = impl.blobs(rng, n, d, k=2)
+    ml, cl, factor = [], [], 1.0
+    if variant == 1:
+        X[1] = X[0]
+        X[-1] = X[0]
+        X[:, d - 1] = 0.0 if d > 1 or fam == "Douglas" else X[:, d - 1]
+    if variant == 2:
+        X = X * 30.0
+    if variant == 3:
+        a, b, c = (int(v) for v in rng.permutation(n)[:3])
+        ml = [(a, b), (b, a), (a, b)]                      # repeated and reversed: contributions add up
+        cl = [(c, n + 5), (n + 7, n + 9), (a, c)]          # indices beyond the data never fall in a batch
+        factor = 2.0
+    decorated = bool(ml or cl)
+    if fam == "KernelRIM" and callable(kw.get("base_kernel")):
+        kw = dict(kw)
+    run_case(chk, i, "edge", (fam, kw, X, ml, cl, factor, "edge", decorated))
+
+
+def sym_callable_kernel(A, B):
+    return (A @ B.T + 1.0) ** 2
+
+
+STREAMS = {"fit": (stream_fit, 400, 4000), "edge": (stream_edge, 32, 320), "path": (stream_path, 12, 120)}
 
 
 def main():
@@ -381,10 +519,11 @@ def main():
             if chk.l1_broken:
                 cnt *= 3
             chk.run_stream(name, fn, cnt)
-    chk.finish(rule="stream fit: real fits (3 epochs) of the 8 gradient-trained families x GEMINI names x {sgd, adam} x batch size {1, 2, n//2, n, None} x "
+    chk.finish(rule="stream edge: single cluster / duplicated rows + constant feature / saturated predictions / repeated, reversed and never-in-batch "
+                    "constraint pairs, feature masks, a callable kernel. stream path: path() of the two sparse families (its own training loop). stream fit: real fits (3 epochs) of the 8 gradient-trained families x GEMINI names x {sgd, adam} x batch size {1, 2, n//2, n, None} x "
                     "plain / mlcl-decorated, n<=20, d<=4, h<=5, with update_params intercepted; every recorded step (capped per fit) is recomputed by the "
                     "extracted model (rtol 1e-9) and a few steps per fit are checked against central finite differences of the objective "
-                    "(rtol 1e-5, two step sizes, entries crossing a ReLU kink skipped, states on the clip boundary skipped). "
+                    "(Richardson-extrapolated central differences at steps h, h/2, h/4: two estimates that must agree to rtol 5e-6, compared with the recorded direction at rtol 1e-5 plus ten times their spread; entries crossing a ReLU kink skipped, entries whose one-sided slopes keep a jump that does not shrink with h (kink of the score itself) skipped, states on the clip boundary skipped). "
                     "non-trivial = parameters moved during the fit and at least one finite-difference entry was compared "
                     "(and, when decorated, a constrained pair fell inside a batch); distinct = (family, gemini, solver, batch class, decorated)")
 
